@@ -981,25 +981,73 @@ func e10SendOnClosable(p *Prog, r *Report, rule string) {
 				r.Bad(rule, key, p.InstrPos(c.in), "close of "+fkey+" which is also sent to, and no disciplined sender was found")
 				continue
 			}
-			ok := false
-			EachInstr(c.fn, func(in ssa.Instruction) {
+			// the removal: a delete(map, …) under the lock, or a call of a private helper that
+			// performs one on every path
+			var removes func(in ssa.Instruction, d int) bool
+			removes = func(in ssa.Instruction, d int) bool {
 				cc := CallOf(in)
-				if cc == nil || !IsBuiltin(cc, "delete") {
-					return
+				if cc == nil {
+					return false
 				}
-				mfa := chanField(cc.Args[0])
-				if mfa == nil || FieldVar(mfa) != mapField {
-					return
+				if _, isGo := in.(*ssa.Go); isGo {
+					return false
 				}
-				if !InstrDominates(in, c.in) {
-					return
+				if IsBuiltin(cc, "delete") {
+					mfa := chanField(cc.Args[0])
+					if mfa == nil || FieldVar(mfa) != mapField {
+						return false
+					}
+					for _, h := range p.E1().held[in] {
+						if h.Abs == lockAbs {
+							return true
+						}
+					}
+					return false
 				}
-				for _, h := range p.E1().held[in] {
-					if h.Abs == lockAbs {
+				sc := cc.StaticCallee()
+				if sc == nil || sc.Blocks == nil || d >= 2 || in.Parent() == nil || sc.Pkg != in.Parent().Pkg || !lowerName(sc.Name()) {
+					return false
+				}
+				found := false
+				EachInstr(sc, func(x ssa.Instruction) {
+					if !found && removes(x, d+1) && everyPath(x) {
+						found = true
+					}
+				})
+				return found
+			}
+			var dominatedAt func(fn *ssa.Function, at ssa.Instruction, d int) bool
+			dominatedAt = func(fn *ssa.Function, at ssa.Instruction, d int) bool {
+				ok := false
+				EachInstr(fn, func(in ssa.Instruction) {
+					if !ok && in != at && InstrDominates(in, at) && removes(in, 0) {
 						ok = true
 					}
+				})
+				if ok || d >= 2 || fn.Parent() != nil || !lowerName(fn.Name()) {
+					return ok
 				}
-			})
+				// the close sits in a private helper: the removal precedes every call of it
+				node := p.CG().Nodes[fn]
+				if node == nil {
+					return false
+				}
+				sites := 0
+				for _, e := range node.In {
+					if e.Site == nil || e.Site.Common().StaticCallee() != fn {
+						return false
+					}
+					if _, isGo := e.Site.(*ssa.Go); isGo {
+						return false
+					}
+					sites++
+					if !dominatedAt(e.Caller.Func, e.Site, d+1) {
+						return false
+					}
+				}
+				return sites > 0
+			}
+			ok := dominatedAt(c.fn, c.in, 0)
 			if ok {
 				r.OK(rule, key, p.InstrPos(c.in), "dominated by the removal of the owner from "+mapField.Name()+" under "+lockAbs)
 			} else {
